@@ -3,6 +3,8 @@ package main
 import (
 	"fmt"
 	"go/token"
+	"go/types"
+	"sort"
 	"strings"
 
 	"golang.org/x/tools/go/ssa"
@@ -47,7 +49,7 @@ func findPasses(c *Ctx, rule string) []*spendPass {
 		}
 		stores := storesTo(acc)
 		for _, f := range Closures(top) {
-			if len(callsNamed(f, "isLockedOutput")) == 0 && len(callsNamed(f, "existsRawUnminedInput")) == 0 {
+			if len(leaseTestsOf(f, "isLockedOutput")) == 0 && len(leaseTestsOf(f, "existsRawUnminedInput")) == 0 {
 				continue
 			}
 			sp := &spendPass{fn: f, role: "skip"}
@@ -145,6 +147,37 @@ func passEdgeKind(from *ssa.BasicBlock, si int) string {
 		return "unspent"
 	}
 	v := f.V
+	if _, field, base, ok := fieldOf(v); ok {
+		// a flag carried as a field of a parameter struct (filter.includeLocked)
+		root := base
+		for {
+			if fa, ok := root.(*ssa.FieldAddr); ok {
+				root = fa.X
+				continue
+			}
+			if u, ok := root.(*ssa.UnOp); ok && u.Op == token.MUL {
+				root = u.X
+				continue
+			}
+			break
+		}
+		switch x := root.(type) {
+		case *ssa.Parameter:
+			return "param:" + field + "=" + f.Kind
+		case *ssa.FreeVar:
+			if _, isAl := freeVarRoot(x).(*ssa.Alloc); isAl {
+				return "param:" + field + "=" + f.Kind
+			}
+			if _, isP := freeVarRoot(x).(*ssa.Parameter); isP {
+				return "param:" + field + "=" + f.Kind
+			}
+		case *ssa.Alloc:
+			if isParamSpill(x) {
+				return "param:" + field + "=" + f.Kind
+			}
+		}
+		return ""
+	}
 	if u, ok := v.(*ssa.UnOp); ok && u.Op == token.MUL {
 		v = u.X // load of a captured / spilled parameter
 	}
@@ -159,13 +192,140 @@ func passEdgeKind(from *ssa.BasicBlock, si int) string {
 	return ""
 }
 
+// predHelper: v is the result of a call of a same-package unexported function with a single bool result (an extracted
+// predicate such as filter.excludes(ns, op, k, now)).
+func predHelper(v ssa.Value, caller *ssa.Function) (*ssa.Call, *ssa.Function) {
+	call, ok := stripConv(v).(*ssa.Call)
+	if !ok {
+		return nil, nil
+	}
+	h := call.Call.StaticCallee()
+	if h == nil || len(h.Blocks) == 0 || h.Parent() != nil || fnPkgPath(h) != fnPkgPath(caller) || h.Object() == nil || h.Object().Exported() {
+		return nil, nil
+	}
+	res := h.Signature.Results()
+	if res.Len() != 1 || !types.Identical(res.At(0).Type().Underlying(), types.Typ[types.Bool]) {
+		return nil, nil
+	}
+	return call, h
+}
+
+// edgeEstablishes: taking this edge establishes a filter outcome accepted by isK — directly, or because the edge tests the
+// result of a predicate helper every path of which to a return of that truth value takes such an edge.
+func edgeEstablishes(from *ssa.BasicBlock, si int, isK func(kind string) bool, depth int) bool {
+	if k := passEdgeKind(from, si); k != "" && isK(k) {
+		return true
+	}
+	if depth > 2 {
+		return false
+	}
+	f := edgeFactOf(from, si)
+	if f == nil || (f.Kind != "true" && f.Kind != "false") {
+		return false
+	}
+	_, h := predHelper(f.V, from.Parent())
+	if h == nil {
+		return false
+	}
+	want := f.Kind == "true"
+	n := 0
+	for _, b := range h.Blocks {
+		r, ok := b.Instrs[len(b.Instrs)-1].(*ssa.Return)
+		if !ok || len(r.Results) != 1 {
+			continue
+		}
+		if cb, isC := constBool(r.Results[0]); isC && cb != want {
+			continue
+		}
+		n++
+		if reachableAvoiding(h, nil, r, func(fr *ssa.BasicBlock, s int) bool { return edgeEstablishes(fr, s, isK, depth+1) }) {
+			return false
+		}
+	}
+	return n > 0
+}
+
+// leaseTest: a call of the lease / unconfirmed-spender test that decides for a pass: in the pass itself, or in a
+// predicate helper the pass calls (site = the helper call in the pass, nil when direct).
+type leaseTest struct {
+	call *ssa.Call
+	fn   *ssa.Function
+	site *ssa.Call
+}
+
+func leaseTestsOf(f *ssa.Function, name string) []leaseTest {
+	var out []leaseTest
+	for _, ci := range callsOf(f) {
+		call, ok := ci.(*ssa.Call)
+		if !ok {
+			continue
+		}
+		if calleeShort(&call.Call) == name {
+			out = append(out, leaseTest{call, f, nil})
+			continue
+		}
+		if _, h := predHelper(call, f); h != nil {
+			for _, lc := range callsNamed(h, name) {
+				out = append(out, leaseTest{lc, h, call})
+			}
+		}
+	}
+	return out
+}
+
+// argAtSite: the value the test's argument has in the pass: a helper parameter is mapped to the argument at the helper call.
+func (t leaseTest) argAtSite(i int) (ssa.Value, *ssa.Function) {
+	if i >= len(t.call.Call.Args) {
+		return nil, nil
+	}
+	v := t.call.Call.Args[i]
+	if t.site == nil {
+		return v, t.fn
+	}
+	if prm, ok := stripConv(v).(*ssa.Parameter); ok {
+		for pi, q := range t.fn.Params {
+			if q == prm && pi < len(t.site.Call.Args) {
+				return t.site.Call.Args[pi], t.site.Parent()
+			}
+		}
+	}
+	return v, t.fn
+}
+
+// flagsGating: names of the boolean parameters / parameter-struct fields X such that the tests run only when X is false
+// (`if !includeLocked { ...isLockedOutput... }`): X=true is the "include them anyway" switch of that filter.
+func flagsGating(tests []leaseTest) map[string]bool {
+	out := map[string]bool{}
+	for _, t := range tests {
+		names := map[string]bool{}
+		for _, b := range t.fn.Blocks {
+			for si := range b.Succs {
+				if k := passEdgeKind(b, si); strings.HasPrefix(k, "param:") {
+					names[k[len("param:"):strings.Index(k, "=")]] = true
+				}
+			}
+		}
+		for x := range names {
+			if !reachableAvoiding(t.fn, nil, t.call, func(from *ssa.BasicBlock, si int) bool {
+				return passEdgeKind(from, si) == "param:"+x+"=false"
+			}) {
+				out[x] = true
+			}
+		}
+	}
+	return out
+}
+
 func checkSpendPasses(c *Ctx, rule string, leaseOnly bool) {
 	p := c.P
 	passes := findPasses(c, rule)
 	c.Floor(rule, "spendability passes (Balance x3, fetchCredits x2)", len(passes), 5)
 	for _, sp := range passes {
-		nLock := len(callsNamed(sp.fn, "isLockedOutput"))
-		nSpent := len(callsNamed(sp.fn, "existsRawUnminedInput"))
+		lockTests := leaseTestsOf(sp.fn, "isLockedOutput")
+		spentTests := leaseTestsOf(sp.fn, "existsRawUnminedInput")
+		leaseFlags, spentFlags := flagsGating(lockTests), flagsGating(spentTests)
+		nLock := len(lockTests)
+		nSpent := len(spentTests)
 		c.Check(rule, "pass-consults-lease:"+sp.name, sp.fn.Pos(), nLock > 0, "this spendability pass never consults the lease state (isLockedOutput): leased outputs are counted/offered")
 		if !leaseOnly {
 			c.Check(rule, "pass-consults-unconfirmed-spender:"+sp.name, sp.fn.Pos(), nSpent > 0, "this spendability pass never consults the unconfirmed-spender index (existsRawUnminedInput): outputs spent by an unconfirmed tx are counted/offered")
@@ -173,12 +333,14 @@ func checkSpendPasses(c *Ctx, rule string, leaseOnly bool) {
 		// the lease test looks in the store's own namespace: its bucket argument is the namespace the pass was given
 		// (a parameter or captured parameter), not a nested bucket of it (the lease bucket lives under the namespace
 		// root; looked up under any other bucket it does not exist and "nothing is leased")
-		for i, call := range callsNamed(sp.fn, "isLockedOutput") {
-			if len(call.Call.Args) < 1 {
+		for i, lt := range lockTests {
+			call := lt.call
+			nsArg, _ := lt.argAtSite(0)
+			if nsArg == nil {
 				continue
 			}
 			okNs := false
-			for _, o := range (&Slicer{P: p}).Origins(call.Call.Args[0]) {
+			for _, o := range (&Slicer{P: p}).Origins(nsArg) {
 				switch x := o.(type) {
 				case *ssa.Parameter:
 					okNs = true
@@ -200,11 +362,16 @@ func checkSpendPasses(c *Ctx, rule string, leaseOnly bool) {
 		// the lease test must ask about the output this iteration is looking at: the outpoint variable handed to
 		// isLockedOutput is (re)written in this pass on every path to the test (a variable shared with an earlier
 		// pass still holds that pass's last outpoint)
-		for i, call := range callsNamed(sp.fn, "isLockedOutput") {
-			if len(call.Call.Args) < 2 {
+		for i, lt := range lockTests {
+			opArg, inFn := lt.argAtSite(1)
+			if opArg == nil {
 				continue
 			}
-			arg := stripConv(call.Call.Args[1])
+			var call ssa.Instruction = lt.call
+			if inFn != lt.fn {
+				call = lt.site
+			}
+			arg := stripConv(opArg)
 			u, isLoad := arg.(*ssa.UnOp)
 			if !isLoad || u.Op != token.MUL {
 				continue // computed in place (composite literal value): necessarily this iteration's
@@ -228,7 +395,7 @@ func checkSpendPasses(c *Ctx, rule string, leaseOnly bool) {
 				}
 				return false
 			}
-			q := &PathQuery{Fn: sp.fn, Barrier: writes, Target: func(ins ssa.Instruction, _ *ssa.BasicBlock) bool { return ins == ssa.Instruction(call) }}
+			q := &PathQuery{Fn: inFn, Barrier: writes, Target: func(ins ssa.Instruction, _ *ssa.BasicBlock) bool { return ins == call }}
 			c.Check(rule, fmt.Sprintf("lease-test-about-iterated-output:%s#%d", sp.name, i+1), call.Pos(), len(q.From(nil)) == 0,
 				"the outpoint handed to isLockedOutput is not (re)computed from the record this pass is iterating over: the lease state of a stale outpoint (left by an earlier pass) decides about every credit of this pass")
 		}
@@ -241,14 +408,16 @@ func checkSpendPasses(c *Ctx, rule string, leaseOnly bool) {
 			if sp.role == "skip" {
 				// the accumulation must be unreachable unless the output is unleased (or leases are included by flag)
 				ok := !reachableAvoiding(sp.fn, nil, act, func(from *ssa.BasicBlock, si int) bool {
-					k := passEdgeKind(from, si)
-					return k == "unlocked" || k == "param:includeLocked=true"
+					return edgeEstablishes(from, si, func(k string) bool {
+						return k == "unlocked" || (strings.HasPrefix(k, "param:") && strings.HasSuffix(k, "=true") && leaseFlags[k[6:len(k)-5]])
+					}, 0)
 				})
 				c.Check(rule, "skip-leased:"+an, act.Pos(), ok, "a leased output can reach the accumulation in this pass (the 'not leased' outcome does not guard it)")
 				if !leaseOnly {
 					ok = !reachableAvoiding(sp.fn, nil, act, func(from *ssa.BasicBlock, si int) bool {
-						k := passEdgeKind(from, si)
-						return k == "unspent" || k == "param:includeSpentByUnmined=true"
+						return edgeEstablishes(from, si, func(k string) bool {
+							return k == "unspent" || (strings.HasPrefix(k, "param:") && strings.HasSuffix(k, "=true") && spentFlags[k[6:len(k)-5]])
+						}, 0)
 					})
 					c.Check(rule, "skip-spent-by-unconfirmed:"+an, act.Pos(), ok, "an output spent by an unconfirmed transaction can reach the accumulation in this pass")
 				}
@@ -318,11 +487,33 @@ func runC01(c *Ctx) {
 	checkSeekHeightNonNegative(c, "C01-R1")
 	checkArithmeticAccumulators(c, "C01-R2", "wtxmgr")
 
-	// fetchCredits flag bindings
+	// fetchCredits flag bindings: the flags are identified by role (which test they switch off), not by name or
+	// position, and may be plain parameters or fields of a parameter struct
 	fc := p.Func("wtxmgr", "Store", "fetchCredits")
 	want := map[string][3]bool{"UnspentOutputs": {false, false, true}, "OutputsToWatch": {true, true, false}}
 	n := 0
 	if fc != nil {
+		var lockT, spentT []leaseTest
+		for _, f := range Closures(fc) {
+			lockT = append(lockT, leaseTestsOf(f, "isLockedOutput")...)
+			spentT = append(spentT, leaseTestsOf(f, "existsRawUnminedInput")...)
+		}
+		roles := map[string]int{}
+		for x := range flagsGating(lockT) {
+			roles[x] = 0
+		}
+		for x := range flagsGating(spentT) {
+			roles[x] = 1
+		}
+		nRole := [3]int{}
+		for _, flag := range boolFlagsOf(fc) {
+			if _, ok := roles[flag]; !ok {
+				roles[flag] = 2
+			}
+			nRole[roles[flag]]++
+		}
+		c.Check("C01-R1", "fetchCredits-has-lease-and-spender-switches", fc.Pos(), nRole[0] >= 1 && nRole[1] >= 1,
+			"fetchCredits has no boolean switch gating its lease test and/or its unconfirmed-spender test: the spendable set and the watch set cannot both be served")
 		for _, cs := range p.callers(fc) {
 			caller := cs.Parent().Name()
 			w, ok := want[caller]
@@ -331,12 +522,15 @@ func runC01(c *Ctx) {
 				continue
 			}
 			n++
-			args := cs.Common().Args // recv, ns, includeLocked, includeSpentByUnmined, populate
-			names := []string{"includeLocked", "includeSpentByUnmined", "populateFullDetails"}
-			for i := 0; i < 3; i++ {
-				b, isConst := constBool(args[2+i])
-				c.Check("C01-R1", fmt.Sprintf("flag-binding:%s.%s", caller, names[i]), cs.Pos(), isConst && b == w[i],
-					fmt.Sprintf("%s must call fetchCredits with %s=%v (spendable-set vs watch-set semantics)", caller, names[i], w[i]))
+			var flags []string
+			for x := range roles {
+				flags = append(flags, x)
+			}
+			sort.Strings(flags)
+			for _, x := range flags {
+				b, isConst := flagValueAt(fc, cs, x)
+				c.Check("C01-R1", fmt.Sprintf("flag-binding:%s.%s", caller, x), cs.Pos(), isConst && b == w[roles[x]],
+					fmt.Sprintf("%s must call fetchCredits with %s=%v (spendable-set vs watch-set semantics)", caller, x, w[roles[x]]))
 			}
 		}
 	}
@@ -396,6 +590,7 @@ func runC01(c *Ctx) {
 	checkConflictRemoval(c, "C01-R5")
 	checkExistsThenPut(c, "C01-R6")
 	checkCreditRewriteFlags(c, "C01-R6")
+	checkRollbackWalk(c, "C01-R4") // "blocks disconnected": every block at or above the target is detached
 	checkLoopCarriedStructs(c, "C01-R4", []string{"rollback", "updateMinedBalance"})
 	runLoopCompleteness(c, "C01-R4", []string{"updateMinedBalance", "rollback", "insertMemPoolTx", "removeDoubleSpends", "removeConflict", "deleteUnminedTx"})
 }
@@ -422,14 +617,35 @@ func runC01R2(c *Ctx) {
 		return
 	}
 	n := 0
+	// derived mutators: an unexported helper that edits u for its callers and leaves the counter to them (an extracted
+	// block that returns the running balance): its call sites are edits of u in the callers
+	derived := map[*ssa.Function]bool{}
+	mutCalls := func(fn *ssa.Function) []*ssa.Call {
+		var muts []*ssa.Call
+		for _, ci := range callsOf(fn) {
+			if call, ok := ci.(*ssa.Call); ok && (mutators[calleeShort(&call.Call)] || derived[call.Call.StaticCallee()]) {
+				muts = append(muts, call)
+			}
+		}
+		return muts
+	}
+	for changed := true; changed; {
+		changed = false
+		for _, fn := range p.FuncsIn("wtxmgr") {
+			if mutators[fn.Name()] || derived[fn] || fn.Parent() != nil || fn.Object() == nil || fn.Object().Exported() {
+				continue
+			}
+			if len(mutCalls(fn)) > 0 && !p.reachSet(fn)[putBal] && len(p.fnUsers()[fn]) > 0 {
+				derived[fn] = true
+				changed = true
+			}
+		}
+	}
 	for _, fn := range p.FuncsIn("wtxmgr") {
-		if mutators[fn.Name()] {
+		if mutators[fn.Name()] || derived[fn] {
 			continue
 		}
-		var muts []*ssa.Call
-		for name := range mutators {
-			muts = append(muts, callsNamed(fn, name)...)
-		}
+		muts := mutCalls(fn)
 		if len(muts) == 0 {
 			continue
 		}
@@ -527,15 +743,8 @@ func runC01R3(c *Ctx) {
 func runLoopCompleteness(c *Ctx, rule string, fnNames []string) {
 	p := c.P
 	n := 0
-	for _, name := range fnNames {
-		fn := p.Func("wtxmgr", "Store", name)
-		if fn == nil {
-			fn = p.Func("wtxmgr", "", name)
-		}
-		if fn == nil {
-			c.Unresolved(rule, "wtxmgr."+name)
-			continue
-		}
+	for _, fn := range wtxRegion(c, rule, fnNames) {
+		name := fn.Name()
 		idx := map[string]int{}
 		for _, l := range loopsOf(fn) {
 			if l.Kind == "for" {
@@ -558,4 +767,113 @@ func runLoopCompleteness(c *Ctx, rule string, fnNames []string) {
 		}
 	}
 	c.Floor(rule, "process-all range loops", n, 12)
+}
+
+// boolFlagsOf: names of fn's boolean parameters and of the boolean fields of its struct-typed parameters.
+func boolFlagsOf(fn *ssa.Function) []string {
+	var out []string
+	isBool := func(t types.Type) bool { return types.Identical(t.Underlying(), types.Typ[types.Bool]) }
+	for _, prm := range fn.Params {
+		if isBool(prm.Type()) {
+			out = append(out, prm.Name())
+			continue
+		}
+		t := prm.Type()
+		if pt, ok := t.Underlying().(*types.Pointer); ok {
+			t = pt.Elem()
+		}
+		if st, ok := t.Underlying().(*types.Struct); ok && fn.Signature.Recv() != nil && prm == fn.Params[0] {
+			_ = st
+			continue // the receiver
+		} else if ok {
+			for i := 0; i < st.NumFields(); i++ {
+				if isBool(st.Field(i).Type()) {
+					out = append(out, st.Field(i).Name())
+				}
+			}
+		}
+	}
+	return out
+}
+
+// flagValueAt: the constant a call site binds flag x to: the argument for the parameter of that name, or the field of that
+// name in a struct literal passed for a struct parameter (unset fields are false).
+func flagValueAt(fn *ssa.Function, cs ssa.CallInstruction, x string) (bool, bool) {
+	args := cs.Common().Args
+	for i, prm := range fn.Params {
+		if i >= len(args) {
+			break
+		}
+		if prm.Name() == x {
+			if b, ok := constBool(args[i]); ok {
+				return b, true
+			}
+		}
+		t := prm.Type()
+		ptr := false
+		if pt, ok := t.Underlying().(*types.Pointer); ok {
+			t = pt.Elem()
+			ptr = true
+		}
+		st, ok := t.Underlying().(*types.Struct)
+		if !ok || (fn.Signature.Recv() != nil && i == 0) {
+			continue
+		}
+		fi := -1
+		for k := 0; k < st.NumFields(); k++ {
+			if st.Field(k).Name() == x {
+				fi = k
+			}
+		}
+		if fi < 0 {
+			continue
+		}
+		var al *ssa.Alloc
+		v := stripConv(args[i])
+		if ptr {
+			al, _ = v.(*ssa.Alloc)
+		} else if u, ok := v.(*ssa.UnOp); ok && u.Op == token.MUL {
+			al, _ = u.X.(*ssa.Alloc)
+		}
+		if al == nil {
+			return false, false
+		}
+		val, known := false, true
+		for _, r := range usesOf(al) {
+			switch y := r.(type) {
+			case *ssa.FieldAddr:
+				for _, r2 := range usesOf(y) {
+					st2, isSt := r2.(*ssa.Store)
+					if !isSt || st2.Addr != ssa.Value(y) {
+						known = false
+						continue
+					}
+					if y.Field == fi {
+						if b, ok := constBool(st2.Val); ok {
+							val = b
+						} else {
+							known = false
+						}
+					}
+				}
+			case *ssa.UnOp, *ssa.DebugRef:
+			case *ssa.Store:
+				if y.Addr == ssa.Value(al) {
+					if _, isZero := y.Val.(*ssa.Const); !isZero {
+						known = false
+					}
+				} else {
+					known = false
+				}
+			case ssa.CallInstruction:
+				if !ptr || r != ssa.Instruction(cs) {
+					known = false
+				}
+			default:
+				known = false
+			}
+		}
+		return val, known
+	}
+	return false, false
 }
